@@ -557,6 +557,9 @@ func splitPath(a string) (string, []string) {
 func (e *Env) lookupRoot(name string) (SV, bool) {
 	if strings.HasPrefix(name, "phi:") { // the loop-carried variable of that name, not the parameter
 		if e.frame != nil {
+			if sv, ok := e.frame.lookupEnclosingLoopPhi(strings.TrimPrefix(name, "phi:")); ok {
+				return sv, true
+			}
 			if sv, ok := e.frame.lookupLocal(strings.TrimPrefix(name, "phi:")); ok {
 				return sv, true
 			}
@@ -919,6 +922,45 @@ func (f *Frame) lookupLocal(name string) (SV, bool) {
 		if _, isConst := v.(*ssa.Const); isConst {
 			return f.val(v), true
 		}
+	}
+	return SV{}, false
+}
+
+// lookupEnclosingLoopPhi: the phi named name at the head of the innermost loop that contains the block being executed
+// (phi:NAME in at-call assertions and ensures: the value the loop-carried variable had at the head of this iteration).
+func (f *Frame) lookupEnclosingLoopPhi(name string) (SV, bool) {
+	cur := f.curBlock
+	if f.curHead != nil {
+		cur = f.curHead
+	}
+	if cur == nil {
+		return SV{}, false
+	}
+	var best ssa.Value
+	bestSize := 1 << 30
+	for h, li := range f.loops {
+		if h != cur && !li.blocks[cur] {
+			continue
+		}
+		for _, ins := range h.Instrs {
+			phi, ok := ins.(*ssa.Phi)
+			if !ok {
+				break
+			}
+			if phi.Comment == name {
+				if _, has := f.vals[phi]; has && len(li.blocks) < bestSize {
+					best, bestSize = phi, len(li.blocks)
+				}
+			}
+		}
+	}
+	if best != nil {
+		if f.useHeadVals && f.headVals != nil {
+			if hv, ok := f.headVals[best.(*ssa.Phi)]; ok {
+				return hv, true
+			}
+		}
+		return f.vals[best], true
 	}
 	return SV{}, false
 }
